@@ -124,6 +124,14 @@ func main() {
 	add("C19", "D10-other-package-named-C", "another package the name C", "ImportName(x.y/a, \"C\") together with Qual(\"C\", x): two imports named C", "cgo",
 		map[string]interface{}{"intro": "qual", "preamble": nil, "others": "one", "prefix": "", "hint": "otherC", "cfirst": false})
 
+	// D11
+	d11 := &recipe.File{Ctor: "NewFile", Args: p, Ops: []recipe.FileOp{op("HeaderComment", "/* Copyright someone")}, Body: []*recipe.Node{
+		recipe.S().C("Var").C("Id", "x").C("Op", "=").C("Lit", recipe.V(1)),
+		recipe.S().C("Comment", "end of file\n(generated)"),
+	}}
+	add("C02", "D11-package-clause-swallowed", "package clause was swallowed", "HeaderComment(\"/* Copyright someone\") (an unterminated raw comment) in a File whose last item is a block comment: the whole source became one comment, format.Source accepted it as a fragment, Render returned nil and wrote bytes that are not a Go file", "plausible_program",
+		map[string]interface{}{"file": d11})
+
 	// KF1: a finding that is recorded, not repaired (the root cause is go/printer of the installed toolchain)
 	kfSrc := "package p\n\nfunc f(a bool) {\n\tif (a || Pair[int, string]{} == x) {\n\t}\n\tfor range (&Pair[int, string]{}.F) {\n\t}\n}\n"
 	kfWhat := "a parenthesised if/for/switch/range header expression that contains a composite literal of an instantiated generic type, e.g. `if (a || Pair[int, string]{} == x) {`: File.Render returns nil but gofmt (go/printer.stripParens of the installed toolchain, which only recognises identifiers and selectors as type names) removes the protecting parentheses and the output no longer parses; gofmt does the same to a hand-written file. General form (internal/knownfind.GofmtBreaks): format.Source accepts the raw rendering and returns text that does not parse; a second shape is a single unnamed result that only parses inside parentheses, e.g. `func g(...T) (...T)`, whose parentheses go/printer drops"
